@@ -6,9 +6,10 @@ rust-bitcoin 0.32 it runs on: `Script::instructions_minimal()` (`Instructions::n
 
 The Rust lexer appends to a `Vec<Token>` and looks at `ret.last()` when it sees `OP_VERIFY`;
 the model threads that last token as `prev` and produces the tokens in script order.
-`strict = false` is the code that exists: `OP_VERIFY` is rejected after `Equal`, `CheckSig`,
-`CheckMultiSig` — but NOT after `NumEqual`.  `strict = true` adds `NumEqual` (the repaired
-lexer); it is only used to state the canonicity theorems.  No imports beyond the spec.
+`strict = true` is the code that exists (since fix 042abd7f): `OP_VERIFY` is rejected after
+`Equal`, `NumEqual`, `CheckSig`, `CheckMultiSig`.  `strict = false` is the lexer before that
+fix (no `NumEqual` in the check); the lemmas are generic in the flag, only `lexG true` is used
+by the model and the theorems.  No imports beyond the spec.
 -/
 import MsVerif.Model.Ast
 import MsVerif.Spec.Script
@@ -145,7 +146,7 @@ def lexGo (strict : Bool) : Nat → Option Token → Bytes → Except LexErr (Li
 def lexG (strict : Bool) (bs : Bytes) : Except LexErr (List Token) := lexGo strict bs.length none bs
 
 /-- `lex::lex` (tokens in script order; `TokenIter` pops them from the end) -/
-def lex (bs : Bytes) : Except LexErr (List Token) := lexG false bs
+def lex (bs : Bytes) : Except LexErr (List Token) := lexG true bs
 
 /-! ### canonical serialisation of a token list (the inverse the lexer should have) -/
 
